@@ -57,6 +57,13 @@ def replay_parser(stream, hist, variant):
                     return 'get', 'step %d: get_message() gave %r expected %r' % (i, m, r)
                 if (m is None) != (n == 0):
                     return 'get-none', 'step %d' % i
+            elif op == 'iter1':
+                it = iter(p)
+                m = next(it, None)
+                got = [] if m is None else [list(m.bytes())]
+                del it                       # the iteration is abandoned
+                if got != r:
+                    return 'iter-one-step', 'step %d: next(iter(parser)) gave %r expected %r' % (i, m, r)
             elif op == 'pending':
                 if p.pending() != n or len(p) != n:
                     return 'pending', 'step %d: pending()=%r expected %d' % (i, p.pending(), n)
@@ -89,6 +96,13 @@ def replay_queue(stream, hist):
                 got = [] if m is None else [list(m.bytes())]
                 if got != r:
                     return 'queue-poll', 'step %d: poll() gave %r expected %r' % (i, m, r)
+            elif op == 'iter1':
+                it = q.iterpoll()
+                m = next(it, None)
+                got = [] if m is None else [list(m.bytes())]
+                del it
+                if got != r:
+                    return 'queue-iterpoll-one-step', 'step %d: gave %r expected %r' % (i, m, r)
             elif op == 'pending':
                 if q._queue.qsize() != n:
                     return 'queue-size', 'step %d: qsize=%d expected %d' % (i, q._queue.qsize(), n)
@@ -129,6 +143,9 @@ def worker(lines):
 def replay(case):
     if case.get('kind') == 'trace':
         return c04.replay_trace(case)
+    if case.get('kind') == 'writers':
+        r = check_queue_writers(case['rseed'])
+        return r and '%s: %s' % r
     for variant in ([case['variant']] if 'variant' in case else range(12)):
         r = check_history(case['stream'], case['hist'], variant)
         if r:
@@ -136,6 +153,63 @@ def replay(case):
         r = replay_queue(case['stream'], case['hist'])
         if r:
             return '%s: %s' % r
+    return None
+
+
+def check_queue_writers(rseed):
+    """Two threads hand consecutive chunks of a byte stream to one ParserQueue
+    (cuts inside messages).  Whatever the schedule, the queue must hold the
+    messages in the order in which the parser completed them, i.e. the parse
+    of the chunks in the order in which the writers got the parser lock."""
+    import queue as _queue
+    import mido
+    from .. import portrun, sched as S
+    rng = random.Random(rseed)
+    m = [mido.Message('note_on', note=1 + k).bytes() for k in range(4)]
+    cut = rng.choice([1, 2])
+    chunks = {1: m[0] + m[1][:cut], 2: m[1][cut:] + m[2] + m[3][:1], 3: m[3][1:]}
+    nthreads = rng.choice([2, 3])
+    sc = S.Scheduler(budget=300)
+    with S.Patched(sc):
+        setup = portrun.Setup('pqueue', [], {}, rng)
+        for t in range(1, nthreads + 1):
+            sc.spawn(t, (lambda c=chunks[t]: setup.pq.put_bytes(c)))
+        started = set()
+        guard = 0
+        while not sc.all_done() and guard < 2000:
+            guard += 1
+            for t in list(sc.ts):
+                if t not in started:
+                    started.add(t)
+                    sc.step(t)
+            run = sc.runnable()
+            if not run:
+                break
+            sc.step(rng.choice(run))
+        if not sc.all_done():
+            return 'queue-writers-hang', 'writers did not finish'
+        for st in sc.ts.values():
+            if st.exc is not None:
+                return 'queue-writers-raise', repr(st.exc)
+        # order in which the writers held the parser lock = order of their first access under it
+        order = []
+        for tid, op in sc.trace:
+            if op not in ('start', 'acq') and tid not in order:
+                order.append(tid)
+        for t in range(1, nthreads + 1):
+            if t not in order:
+                order.append(t)          # a chunk that completed no message
+        got = []
+        while True:
+            try:
+                got.append(list(setup.pq._queue.q.get_nowait().bytes()))
+            except _queue.Empty:
+                break
+    stream = [b for t in order for b in chunks[t]]
+    exp = [list(x.bytes()) for x in mido.parse_all(stream)]
+    if got != exp:
+        return ('queue-writers-order', 'writers took the lock in order %r; queue holds %r, the parser completed %r' % (
+            order, got, exp))
     return None
 
 
@@ -157,6 +231,14 @@ def run(ctx):
                            simulate=200000, depth=30, seed=ctx.seed + 5, timeout=1800, workers=8)
         pr.finish()
         ctx.add_tlc(res, 'TokChunks -simulate items<=4 chunks<=9 retrievals<=6')
+    # two writer threads on one ParserQueue under the deterministic scheduler
+    rng = random.Random(ctx.seed + 55)
+    for _ in range(600 if thorough else 120):
+        rseed = rng.randrange(1 << 30)
+        r = check_queue_writers(rseed)
+        ctx.replayed += 1
+        if r:
+            ctx.violation('chunks/' + r[0], {'kind': 'writers', 'rseed': rseed}, r[1])
     # V: long streams, random chunking and retrieval, validated by TLC
     ctx.seed_offset = 5
     c04.run_traces(ctx, 40 if thorough else 20, 6000 if thorough else 2500,
